@@ -40,13 +40,33 @@ def seq_files(E, s, ref):
     return fl.n, (lambda i, s2=None: file_obj(E, s2 if s2 is not None else s, fl, i))
 
 
+def is_pipeline_loop(st, stmts):
+    """a top-level `for` of main() in which every file goes through the tokenizer: its body, or a
+    helper function defined in main() that the body calls, constructs a Lexer"""
+    if not isinstance(st, ast.For):
+        return False
+    helpers = {d.name: d for s_ in stmts for d in ast.walk(s_) if isinstance(d, ast.FunctionDef)}
+
+    def has_lexer(node, depth=0):
+        for x in ast.walk(node):
+            if isinstance(x, ast.Call):
+                nm = ast.unparse(x.func)
+                if nm == "Lexer":
+                    return True
+                if nm in helpers and depth < 3 and has_lexer(helpers[nm], depth + 1):
+                    return True
+        return False
+    return has_lexer(st)
+
+
 def tail_slice(stmts):
     """mechanical extraction: the first top-level `for` whose iterable is the name `files`
     (the per-file pipeline loop; the --use-gitignore filter is nested in an `if`) and everything
     after it"""
     k = None
     for i, st in enumerate(stmts):
-        if isinstance(st, ast.For) and isinstance(st.iter, ast.Name) and st.iter.id == "files" and k is None:
+        if k is None and (is_pipeline_loop(st, stmts) or
+                          (isinstance(st, ast.For) and isinstance(st.iter, ast.Name) and st.iter.id == "files")):
             k = i
     if k is None:
         raise SpecError("main(): no `for ... in files` loop found")
@@ -144,12 +164,13 @@ def main_tail():
 # ------------------------------------------------------------------ C15: the discovery slice of main()
 def discovery_slice(stmts):
     """mechanical extraction: from the `if args.cfile or args.hfile:` statement up to (not
-    including) the last `for ... in files` loop (the processing loop, C04)"""
+    including) the per-file pipeline loop (the processing loop, C04)"""
     start = end = None
     for i, st in enumerate(stmts):
         if start is None and isinstance(st, ast.If) and "args.cfile" in ast.unparse(st.test):
             start = i
-        if isinstance(st, ast.For) and isinstance(st.iter, ast.Name) and st.iter.id == "files":
+        if end is None and (is_pipeline_loop(st, stmts) or
+                            (isinstance(st, ast.For) and isinstance(st.iter, ast.Name) and st.iter.id == "files")):
             end = i
     if start is None or end is None:
         raise SpecError("main(): discovery part not found")
